@@ -35,6 +35,77 @@ GW = "Grid.GlobalTrapezoidalGridWeighted"
 UQ = "GridOperation.UncertaintyQuantification"
 
 
+NP_CONVERT = {"asarray", "array", "asanyarray", "asfarray"}
+ABS_CALLS = {"abs", "absolute", "fabs"}
+FRESH_RESULT_CALLS = {"array", "zeros", "ones", "empty", "full", "copy", "deepcopy", "concatenate", "list", "linspace", "arange", "inner", "dot", "sum",
+                      "transpose", "zeros_like", "ones_like", "fit_quadrature", "tuple", "sorted"}
+
+
+def _array_variance_form(mv):
+    """whole-array form of the variance: the returned variance resolves to  abs(M2 - M1 * M1)  /  maximum(M2 - M1 * M1, 0)  with M1, M2 the
+    (converted) parameters.  Returns (formula ok, non-negative ok) or None when the function is not written in that form."""
+    ps = R.path_summaries(mv)                 # loop-free: locals substituted along each path (re-bindings and `-=` included)
+    if not ps:
+        return None
+    vals = {v for (_f, v) in ps if v != ("<falls-off>",)}
+    if len(vals) != 1:
+        return None
+    v = vals.pop()
+    if not (v[0] == "tuple" and len(v) == 3):
+        return None
+    t = v[2]
+
+    def strip(x):
+        if isinstance(x, tuple) and x and x[0] == "call" and x[1][0] in ("a", "n") and (x[1][2] if x[1][0] == "a" else x[1][1]) in NP_CONVERT and len(x[2]) == 1:
+            return strip(x[2][0])
+        if isinstance(x, tuple):
+            return tuple(strip(y) for y in x)
+        return x
+    t = strip(t)
+    if t[0] != "call":
+        return None
+    fname = t[1][2] if t[1][0] == "a" else (t[1][1] if t[1][0] == "n" else None)
+    nonneg = False
+    inner = None
+    if fname in ABS_CALLS and len(t[2]) == 1:
+        nonneg, inner = True, t[2][0]
+    elif fname == "maximum" and len(t[2]) == 2 and ("c", "0") in t[2] or fname == "maximum" and len(t[2]) == 2 and ("c", "0.0") in t[2]:
+        nonneg = True
+        inner = [x for x in t[2] if x not in (("c", "0"), ("c", "0.0"))][0]
+    if inner is None:
+        return None
+    m1, m2 = ("n", mv.params[0]), ("n", mv.params[1])
+    try:
+        good = poly_of_term(inner) == poly_of_term(("op", "Sub", (m2, ("op", "Mult", (m1, m1)))))
+    except Exception:                                            # noqa: BLE001
+        good = False
+    return good, nonneg
+
+
+def check_results_not_modified(prog, ctx):
+    """D10: E and Var are read off the combined moments; the combined moments are the operation's stored result (get_result() returns
+    the array itself, and it is also the combination's calculated solution).  No method of UncertaintyQuantification may modify, in
+    place, an object it received as a sequence parameter or as the result of a non-constructing call (or a view of one)."""
+    uq = prog.cls(UQ)
+    n = 0
+    for name, fi in sorted(uq.methods.items()):
+        roots = set(R.sequence_params(fi))
+        for st in walk_local(fi.node):
+            if isinstance(st, ast.Assign) and len(st.targets) == 1 and isinstance(st.targets[0], ast.Name) and isinstance(st.value, ast.Call):
+                fn = st.value.func.attr if isinstance(st.value.func, ast.Attribute) else (st.value.func.id if isinstance(st.value.func, ast.Name) else None)
+                if fn not in FRESH_RESULT_CALLS and fn not in R.VIEW_CALLS:
+                    roots.add(st.targets[0].id)
+        n += 1
+        for (st, nm, root, how) in R.inplace_modifications_of_parameters(fi, roots):
+            ctx.violation("C15.D10", R.key_of(fi, "modifies-received-object:%s" % nm), fi.loc(st),
+                          "`%s` modifies `%s` in place (%s); `%s` is, or may be a view of, the object received as `%s` -- for the combined moments that "
+                          "is the operation's stored result, so a second read of the statistics sees the modified values"
+                          % (src(st)[:70], nm, how, nm, root))
+    ctx.check(n >= 20, "C15.D10", "%s::statistics-do-not-modify-results" % UQ, uq.methods["moments_to_expectation_variance"].loc(),
+              "%d methods of UncertaintyQuantification analysed: none modifies a received sequence / call result (or a view of it) in place" % n,
+              "only %d methods of UncertaintyQuantification found" % n)
+
+
 def run(prog, ctx):
     cw = prog.func(GW + ".compute_weights")
     ctx.touch(cw)
@@ -300,6 +371,9 @@ def run(prog, ctx):
                     good = good and any(g[0] == "cmp" and g[1] == "LtE" and g[2] in zero and g[3] == base for g in f)
             ok = good
             entry_loop = loop
+    af_ = _array_variance_form(mv)
+    if af_ is not None and af_[1]:
+        ok = True
     ctx.check(ok, "C15.D4", R.key_of(mv, "variance-nonneg"), mv.loc(),
               "every negative variance entry is replaced by its negation before the pair is returned",
               "moments_to_expectation_variance can return a negative variance: " + why)
@@ -331,6 +405,9 @@ def run(prog, ctx):
             i_t = list(idxs)[0]
             e_t = ("s", ("n", m1), i_t)
             okv = poly_of_term(ev) == poly_of_term(("op", "Sub", (("s", ("n", m2), i_t), ("op", "Mult", (e_t, e_t)))))
+    array_form = _array_variance_form(mv)
+    if array_form is not None:
+        okv = okv or array_form[0]
     ctx.check(okv, "C15.D4", R.key_of(mv, "variance-formula"), mv.loc(),
               "variance[i] = second_moment[i] - expectation[i]**2", "the variance is no longer second_moment[i] - expectation[i] * expectation[i]")
 
@@ -402,6 +479,8 @@ def run(prog, ctx):
     # ------------------------------------------------------------------ D8, D9
     check_loop_closures(prog, ctx)
     check_parallel_refresh(prog, ctx)
+    # ------------------------------------------------------------------ D10
+    check_results_not_modified(prog, ctx)
 
     # ------------------------------------------------------------------ D6
     gmw = prog.func(GW + ".get_middle_weighted")
